@@ -34,7 +34,8 @@ SHARD_TIMEOUT = {"quick": 300, "thorough": 1500}
 
 
 def all_cases(tier: str, seed: int):  # noqa: ANN201
-    yield from treecheck.cases("c02", tier, seed, 4000, 60000, extra=lambda: itertools.chain(treefam.failure_then_shield(), treefam.shielded_group_failure()))
+    yield from treecheck.cases("c02", tier, seed, 4000, 60000, extra=lambda: itertools.chain(treefam.failure_then_shield(), treefam.shielded_group_failure(),
+                                                                  treefam.start_sweep_uncancelled_caller()))
 
 
 def shards(tier: str, seed: int) -> list[dict]:
